@@ -47,6 +47,7 @@ type Violation struct {
 type Harness struct {
 	Name  string
 	Param string
+	Arg   int    // harness parameter set per exploration (e.g. the fault position)
 	Cost  string // "preempt" or "delay"
 	Bound int
 	// Body runs as thread 0. It must create all state afresh.
@@ -317,6 +318,7 @@ type req struct {
 	Prefix   []int  `json:"p"`
 	Mode     string `json:"m"` // "expand" | "subtree" | "replay"
 	Bound    int    `json:"b"`
+	Arg      int    `json:"a"`
 	Deadline int64  `json:"d"` // unix seconds, 0 = none
 }
 
@@ -325,6 +327,9 @@ type resp struct {
 	Children [][]int `json:"children,omitempty"`
 	Hash     uint64  `json:"hash,omitempty"`
 }
+
+// CurrentArg is the Arg of the exploration in progress (read by harness bodies).
+var CurrentArg int
 
 // Registry of harnesses, by name.
 var registry = map[string]*Harness{}
@@ -358,6 +363,8 @@ func WorkerMain() {
 		}
 		h := *h0
 		h.Bound = q.Bound
+		h.Arg = q.Arg
+		CurrentArg = q.Arg
 		st := newStats()
 		var rp resp
 		switch q.Mode {
@@ -428,6 +435,7 @@ type Result struct {
 	Param    string
 	Cost     string
 	Bound    int
+	Arg      int
 	Stats    *Stats
 	WallS    float64
 	Complete bool
@@ -446,11 +454,11 @@ func Explore(h *Harness, nproc int, deadline time.Time) (*Result, error) {
 		return nil, err
 	}
 	defer w0.stop()
-	r1, err := w0.call(req{Harness: h.Name, Mode: "expand", Bound: h.Bound})
+	r1, err := w0.call(req{Harness: h.Name, Mode: "expand", Bound: h.Bound, Arg: h.Arg})
 	if err != nil {
 		return nil, err
 	}
-	r2, err := w0.call(req{Harness: h.Name, Mode: "expand", Bound: h.Bound})
+	r2, err := w0.call(req{Harness: h.Name, Mode: "expand", Bound: h.Bound, Arg: h.Arg})
 	if err != nil {
 		return nil, err
 	}
@@ -466,7 +474,7 @@ func Explore(h *Harness, nproc int, deadline time.Time) (*Result, error) {
 	for len(queue) > 0 && len(queue) < nproc*24 {
 		p := queue[0]
 		queue = queue[1:]
-		r, err := w0.call(req{Harness: h.Name, Mode: "expand", Prefix: p, Bound: h.Bound})
+		r, err := w0.call(req{Harness: h.Name, Mode: "expand", Prefix: p, Bound: h.Bound, Arg: h.Arg})
 		if err != nil {
 			return nil, err
 		}
@@ -509,7 +517,7 @@ func Explore(h *Harness, nproc int, deadline time.Time) (*Result, error) {
 				p := queue[next]
 				next++
 				mu.Unlock()
-				r, err := w.call(req{Harness: h.Name, Mode: "subtree", Prefix: p, Bound: h.Bound, Deadline: dl})
+				r, err := w.call(req{Harness: h.Name, Mode: "subtree", Prefix: p, Bound: h.Bound, Deadline: dl, Arg: h.Arg})
 				mu.Lock()
 				if err != nil {
 					firstErr = fmt.Errorf("harness %s prefix %v: %v", h.Name, p, err)
@@ -538,11 +546,12 @@ func Explore(h *Harness, nproc int, deadline time.Time) (*Result, error) {
 	if total.Broken != "" {
 		return nil, fmt.Errorf("%s", total.Broken)
 	}
-	return &Result{Harness: h.Name, Param: h.Param, Cost: h.Cost, Bound: h.Bound, Stats: total, WallS: time.Since(t0).Seconds(), Complete: !total.Truncated}, nil
+	return &Result{Harness: h.Name, Param: h.Param, Cost: h.Cost, Bound: h.Bound, Arg: h.Arg, Stats: total, WallS: time.Since(t0).Seconds(), Complete: !total.Truncated}, nil
 }
 
 // Replay runs one choice vector with a full trace (used by the replay command and by tests).
 func Replay(h *Harness, choices []int) (*sched.Exec, []Violation, []string) {
+	CurrentArg = h.Arg
 	r := runOnce(h, choices, true)
 	return r.x, r.viol, r.obs.Log
 }
